@@ -9,6 +9,13 @@ From C11 Require Import Gen Model Spec Common ProofsArena Iface.
 Import ListNotations.
 Local Open Scope Z_scope.
 
+Lemma max_span_count_ok t count : 0 <= t -> 0 <= count <= max_span_count t -> 0 <= count * t < two64.
+Proof.
+  intros Ht Hc. unfold max_span_count in Hc. destruct (t >? 1) eqn:E.
+  - apply Z.gtb_lt in E. assert (Hd : t * ((two64 - 1) / t) <= two64 - 1) by (apply Z.mul_div_le; lia). nia.
+  - rewrite Z.gtb_ltb in E. apply Z.ltb_ge in E. assert (t = 0 \/ t = 1) by lia. destruct H as [-> | ->]; lia.
+Qed.
+
 Section Generic.
 Variable S : Type.
 Variable p_alloc : S -> Z -> option (S * Z).
@@ -63,28 +70,36 @@ Proof.
   apply andb_prop in E. destruct E as [E1 E2]. apply Z.gtb_lt in E1. apply negb_true_iff in E2. apply Z.eqb_neq in E2. auto.
 Qed.
 
-(* a non-empty span returned by spanalloc is the block returned by alloc(count * #T mod 2^64);
-   when count * #T does not wrap, the bytes the span claims are exactly that block *)
+
+(* a non-empty span returned by spanalloc is exactly the block returned by alloc(count * #T): the
+   overflow test of the code guarantees that count * #T does not wrap *)
 Lemma spanalloc_spec s t count s' sp :
-  i_spanalloc S p_alloc s t count = Some (s', sp) -> fst sp <> 0 ->
-  snd sp = count /\ p_alloc s (w64 (count * t)) = Some (s', fst sp) /\
-  (0 <= count * t < two64 -> span_extent t sp = mkblk (fst sp) (w64 (count * t))).
-Proof.
-  unfold i_spanalloc. destruct (count >? 0); [|intros H; inversion H; subst; cbn; contradiction].
-  destruct (p_alloc s (w64 (count * t))) as [[s1 p]|]; [|discriminate].
-  intros H Hp. inversion H; subst. destruct (p =? 0) eqn:E; [cbn in Hp; contradiction|].
-  apply Z.eqb_neq in E. cbn [fst snd]. repeat split; auto.
-  intros Hr. unfold span_extent. cbn [fst snd]. rewrite w64_small by exact Hr. reflexivity.
+  i_spanalloc S p_alloc s t count = Some (s', sp) -> fst sp <> 0 -> 0 <= t ->
+  snd sp = count /\ 0 < count /\ 0 <= count * t < two64 /\
+  p_alloc s (count * t) = Some (s', fst sp) /\ span_extent t sp = mkblk (fst sp) (count * t).
+Proof using S p_alloc.
+  clear p_dealloc p_realloc. unfold i_spanalloc. intros H Hp Ht.
+  destruct ((count >? 0) && (count <=? max_span_count t)) eqn:Ec; [|inversion H; subst; cbn in Hp; contradiction].
+  apply andb_prop in Ec. destruct Ec as [E1 E2]. apply Z.gtb_lt in E1. apply Z.leb_le in E2.
+  pose proof (max_span_count_ok t count Ht ltac:(lia)) as Hr.
+  rewrite (w64_small (count * t)) in H by exact Hr.
+  destruct (p_alloc s (count * t)) as [[s1 p]|]; [|discriminate].
+  inversion H; subst. destruct (p =? 0) eqn:E; [cbn in Hp; contradiction|].
+  cbn [fst snd]. repeat split; auto; lia.
 Qed.
 
 Lemma spanrealloc_spec s t sp count s' sp' :
   i_spanrealloc S p_alloc p_realloc s t sp count = Some (s', sp') -> snd sp <> 0 ->
+  (s' = s /\ sp' = sp /\ max_span_count t < count) \/
   exists q, p_realloc s (fst sp) (w64 (count * t)) (w64 (snd sp * t)) = Some (s', q) /\
-            (sp' = sp \/ sp' = (q, count)).
+            count <= max_span_count t /\ (sp' = sp \/ sp' = (q, count)).
 Proof.
   unfold i_spanrealloc. intros H Hs. apply Z.eqb_neq in Hs. rewrite Hs in H. cbn [andb] in H.
-  destruct (p_realloc s (fst sp) (w64 (count * t)) (w64 (snd sp * t))) as [[s1 q]|]; [|discriminate].
-  inversion H; subst. exists q. split; [reflexivity|]. destruct ((count >? 0) && (q =? 0)); auto.
+  destruct (count >? max_span_count t) eqn:Ec.
+  - inversion H; subst. left. apply Z.gtb_lt in Ec. auto.
+  - rewrite Z.gtb_ltb in Ec. apply Z.ltb_ge in Ec. right.
+    destruct (p_realloc s (fst sp) (w64 (count * t)) (w64 (snd sp * t))) as [[s1 q]|]; [|discriminate].
+    inversion H; subst. exists q. split; [reflexivity|]. split; [exact Ec|]. destruct ((count >? 0) && (q =? 0)); auto.
 Qed.
 
 Lemma spandealloc_spec s sp : i_spandealloc S p_dealloc s sp = if snd sp =? 0 then Some s else p_dealloc s (fst sp).
@@ -105,38 +120,20 @@ Qed.
 
 End Generic.
 
-(* ---------- instantiated on the arena: span extents ---------- *)
-Definition arena_span_in_full : Prop :=
-  forall c t count s' sp, acfg_ok c -> 0 < t < two64 -> 0 <= count < two64 ->
-    i_spanalloc astate (arena_alloc c) arena_init t count = Some (s', sp) -> fst sp <> 0 ->
-    blk_in (a_base c) (a_size c) (span_extent t sp).
-
-(* arena(64,8): spanalloc(@uint32, 2^62+1) requests 4 bytes and returns a span of 2^62+1 elements *)
-Theorem arena_span_in_refuted_proof : ~ arena_span_in_full.
-Proof.
-  intros H.
-  destruct (i_spanalloc astate (arena_alloc wit_cfg) arena_init 4 (two63 / 2 + 1)) as [[s' sp]|] eqn:E;
-    [|vm_compute in E; discriminate E].
-  assert (Hp : fst sp <> 0) by (vm_compute in E; inversion E; subst; cbn; intros Hx; discriminate Hx).
-  assert (Ht : 0 < 4 < two64) by (unfold two64; lia).
-  assert (Hc' : 0 <= two63 / 2 + 1 < two64) by (vm_compute; split; [intros Hx; discriminate Hx | reflexivity]).
-  specialize (H wit_cfg 4 (two63 / 2 + 1) s' sp wit_cfg_ok Ht Hc' E Hp).
-  vm_compute in E. inversion E; subst. unfold blk_in, span_extent, wit_cfg in H. cbn in H. lia.
-Qed.
-
-Theorem arena_span_in_partial_proof :
+(* ---------- instantiated on the arena: a span is a good block like any other ---------- *)
+Theorem arena_span_in_proof :
   forall c ops s live t count s' sp, acfg_ok c -> Forall aop_usize ops ->
-    arun c (arena_init, []) ops = Some (s, live) ->
-    0 <= count * t < two64 ->
+    arun c (arena_init, []) ops = Some (s, live) -> 0 <= t ->
     i_spanalloc astate (arena_alloc c) s t count = Some (s', sp) -> fst sp <> 0 ->
+    snd sp = count /\
     good_blocks (a_base c) (a_size c) (a_align c) (live ++ [span_extent t sp]).
 Proof.
-  intros c ops s live t count s' sp Hc Hd Hr Hct Hsp Hp.
+  intros c ops s live t count s' sp Hc Hd Hr Ht Hsp Hp.
   destruct (arun_ok c Hc ops arena_init [] (ainv_init c Hc) Hd) as (s0 & l0 & Hr0 & Hi).
   rewrite Hr in Hr0. inversion Hr0; subst s0 l0. clear Hr0.
-  destruct (spanalloc_spec astate (arena_alloc c) s t count s' sp Hsp Hp) as (_ & Ha & Hext).
-  rewrite (Hext Hct).
-  destruct (arena_alloc_ok c Hc s live (w64 (count * t)) Hi ltac:(unfold w64, two64; lia)) as (s1 & p & Ha1 & _ & Hcase).
+  destruct (spanalloc_spec astate (arena_alloc c) s t count s' sp Hsp Hp Ht) as (Hcnt & _ & Hct & Ha & Hext).
+  split; [exact Hcnt|]. rewrite Hext.
+  destruct (arena_alloc_ok c Hc s live (count * t) Hi Hct) as (s1 & p & Ha1 & _ & Hcase).
   rewrite Ha in Ha1. inversion Ha1; subst s1 p.
   destruct Hcase as [[Hz _] | (_ & _ & _ & Hinv)]; [contradiction|].
   eapply ainv_good; eassumption.
